@@ -415,14 +415,16 @@ func seqPath(path []interface{}) string { return hx.Canon(normPath(path)) }
 
 // goValue turns a wire GoVal into the real Go value a resolver returns. path = the response position the value is
 // returned for (a thunk logs it when it is called: the position of the deferred value).
-func (rt *Runtime) goValue(v interface{}, path []interface{}) interface{} {
+// typedInts: the position is Int-typed, so integers of other widths / behind pointers may be handed out as such
+// (anywhere else a pointer would be printed as an address by %v); otherwise their plain value is used.
+func (rt *Runtime) goValue(v interface{}, path []interface{}, typedInts bool) interface{} {
 	switch x := v.(type) {
 	case nil:
 		return nil
 	case []interface{}:
 		out := make([]interface{}, len(x))
 		for i, e := range x {
-			out[i] = rt.goValue(e, append(append([]interface{}{}, path...), i))
+			out[i] = rt.goValue(e, append(append([]interface{}{}, path...), i), typedInts)
 		}
 		return out
 	case map[string]interface{}:
@@ -455,6 +457,9 @@ func (rt *Runtime) goValue(v interface{}, path []interface{}) interface{} {
 		if nv, ok := x["$num"]; ok {
 			a := nv.([]interface{})
 			n := int64(toInt(a[1]))
+			if !typedInts {
+				return int(n)
+			}
 			switch a[0] {
 			case "int64":
 				return n
@@ -492,7 +497,7 @@ func (rt *Runtime) goValue(v interface{}, path []interface{}) interface{} {
 				rt.mu.Unlock()
 			}
 			if inner, ok := tm["v"]; ok {
-				val := rt.goValue(inner, path)
+				val := rt.goValue(inner, path, typedInts)
 				return func() (interface{}, error) { note(); return val, nil }
 			}
 			return func() (interface{}, error) { note(); return nil, errors.New("thunk failed") }
@@ -572,7 +577,7 @@ func (rt *Runtime) Hooks() gq.Hooks {
 						panic(42)
 					}
 				}
-				return rt.goValue(out["v"], e.Path), nil
+				return rt.goValue(out["v"], e.Path, graphql.GetNamed(p.Info.ReturnType) == graphql.Type(graphql.Int)), nil
 			}
 		},
 		ResolveType: func(abstract string, objects map[string]*graphql.Object) graphql.ResolveTypeFn {
